@@ -125,6 +125,8 @@ check("C10", "log damage is contained", [
     ob("VerifC10_FlipByte", "pkg/wal", "one byte at every position replaced by a symbolic different value", "<=2 small entries, every position, every value", q={"budget_s": 300}),
     ob("VerifC10_DamageThenWriteThenRecover", "pkg/engine/storage", "storage.Manager on a log cut at every offset or with one byte altered: open succeeds, intact prefix recovered; a write acknowledged after the recovery and the recovered operations survive a clean close and a second open",
        "<=2 small entries, every cut offset, every position x every replacement value"),
+    ob("VerifC10_DamagedFragmentedTail", "pkg/engine/storage", "log ending in an entry fragmented over three records (33 KB value), cut at every record boundary +-1, behind a header, inside a record: open succeeds, the earlier entry recovered, the large one only if complete and unaltered; then another fragmented entry and a small one written, close, reopen: both there unaltered, the cut entry not back with fabricated bytes",
+       "4 record boundaries x 5 cut offsets"),
 ], [SIMFS, CLOCK, HASH, LOG, TIERA, "CRC-32 single-byte-error axiom instances are justified by lemmas/crc32_step.smt2 (step injective in state and in byte; discharged on every run) plus a three-line induction over the stream on paper"],
    ["multi-byte damage", "checksum collisions other than single-byte errors (ideal-checksum assumption)"], lemmas=["crc32_step"])
 
